@@ -261,10 +261,11 @@ def seeds(seed):
                   "40 remark = two", f"50 deny ip host {ip(w + 1)} any", "60 permit ip any any"],
          {"GRP": mem_nx}, PREFIX),  # this seed starts grouped (blocks carry sequence numbers)
         ("ios", ["remark lead", "permit 47 any any", f"permit ip {ip(w)} 0.0.1.3 any", "permit 47 any any",
-                 "remark = only", "deny tcp any any neq 25"], {}, ""),
+                 "remark = only", "deny tcp any any neq 25", "permit tcp any any eq 135"], {}, ""),
     ]
 
 
+SEED_VERSION = ["", "9.3(8)", "15.2(4)M"]  # the third seed renders names from the IOS 15 table
 NEW_ENTRY = dict(ios="permit udp host 10.250.0.9 any eq 123", nxos="permit udp host 10.250.0.9 any eq 123")
 
 
@@ -285,7 +286,8 @@ def build(si, ctx):
 
     platform, lines, members, group_by = seeds(ctx.seed)[si]
     head = "ip access-list extended A" if platform == "ios" else "ip access-list A"
-    acl = Acl(head + "\n" + "\n".join(" " + x for x in lines), platform=platform)
+    acl = Acl(head + "\n" + "\n".join(" " + x for x in lines), platform=platform,
+              version=SEED_VERSION[si])
     for o in acl.items:
         if isinstance(o, Ace):
             for side in ("srcaddr", "dstaddr"):
@@ -396,7 +398,8 @@ def check_state(acl, model, case, ctx):
         return False
     # (2) denotation of the text == model leaves
     try:
-        got = Reader(acl.platform, port_names=G.port_vocab(acl.platform, "")).read_acl(acl.line)["items"]
+        ver = "" if str(acl.version) == "0" else str(acl.version)
+        got = Reader(acl.platform, port_names=G.port_vocab(acl.platform, ver)).read_acl(acl.line)["items"]
     except Reject as ex:
         ctx.viol("state:text_not_valid_for_platform", case, dict(text=acl.line, why=str(ex)),
                  f"valid {acl.platform}")
@@ -484,7 +487,7 @@ def run_history(si, ops, ctx, independence=True):
     n_leaves = len(model.flat())
     if any(o in ops for o in ("platform=nxos", "ungroup_ports")) and si == 0:
         ctx.out("split_happened")
-    if "delete_shadow" in ops and n_leaves < (7 if si == 0 else 6) + ops.count("insert"):
+    if "delete_shadow" in ops and n_leaves < (7 if si in (0, 2) else 6) + ops.count("insert"):
         ctx.out("shadow_removed")
     if model.group_by:
         ctx.out("regrouped")
